@@ -78,7 +78,8 @@ def run_seq(kind, reqs, order):
     ok = got == expected and all(h.invocation_id == iid for h in hist)
     # the changes of this history are made one after the other (each record is created right after its change), so the
     # history AS RETURNED (ordered by the stored history time) must be in change order too, however late the writers ran
-    returned = [(h.status_record.status.value, h.runner_context_id) for h in hist]
+    # (ordered by the time each entry carries, not by list position: the property does not promise a list order)
+    returned = [(h.status_record.status.value, h.runner_context_id) for h in sorted(hist, key=lambda h: h.timestamp)]
     ok_returned = returned == expected
     other_after = [(h.status_record.status, h.runner_context_id) for h in app.state_backend.get_history(other)]
     ok = ok and other_after == other_before
@@ -89,7 +90,7 @@ def run_seq(kind, reqs, order):
                    "other": (other_before, other_after), "strict_times": strictly,
                    "returned": returned,
                    "why": ("C10:history-differs-from-changes" if other_after == other_before else "C10:other-invocation-history-touched") if not ok
-                          else (None if ok_returned else "C10:get_history-order-differs-from-change-order")}
+                          else (None if ok_returned else "C10:history-entry-times-are-not-in-change-order")}
     return ok and strictly and ok_returned
 
 def go(reqs, order):
@@ -170,5 +171,5 @@ def run(ctx: Ctx) -> None:
                   "backends": "in-memory and SQLite in the same path"}
     ctx.stubs += ["threading.Thread in base_state_backend -> DeferredThread (writers run when the harness says so)", "datetime.now in base_state_backend -> strictly increasing instants", "counter clock in orchestrators, deterministic uuid4"]
     ctx.assumptions += ["order is taken from the change time stored in each status record (InvocationStatusRecord.timestamp); with the real clock two changes are assumed not to share a microsecond",
-                        "history order AS RETURNED by get_history() (by the creation time of the history record) is claimed for changes made one after the other with arbitrarily late writers; "
+                        "history ordered by the time each returned entry carries (InvocationHistory.timestamp, the creation time of the record) is claimed for changes made one after the other with arbitrarily late writers; "
                         "when a setter is preempted between its transition and the creation of its history record (part 2) only the order by change time is claimed"]
